@@ -1,6 +1,7 @@
 package props
 
 import (
+	"math"
 	"fmt"
 	"strings"
 	"testing"
@@ -58,6 +59,10 @@ var c08Grid = hx.Define("c08.index-grid", func(c *c08GridCase, s *hx.Sub) *hx.Vi
 		case "1.5":
 			specified = false // a float index is not described by the statement
 		case "nil", "true", `"x"`, "a", "undefined_name":
+		case "maxuint64", "maxuint64-1", "maxuint", "u2^63", "minint64", "uintptr-max":
+			// integers far out of range, bound as variables of the widest types (a "not found" sentinel, say)
+			binds["i"], ix = map[string]any{"maxuint64": uint64(math.MaxUint64), "maxuint64-1": uint64(math.MaxUint64 - 1), "maxuint": uint(math.MaxUint),
+				"u2^63": uint64(1) << 63, "minint64": int64(math.MinInt64), "uintptr-max": ^uintptr(0)}[c.Index], "i"
 		}
 	}
 	src := "{{ a[" + ix + "] }}"
@@ -387,7 +392,7 @@ func TestC08(t *testing.T) {
 					}
 				}
 			}
-			for _, ix := range []string{`"x"`, "1.5", "nil", "true", "a", "undefined_name"} {
+			for _, ix := range []string{`"x"`, "1.5", "nil", "true", "a", "undefined_name", "maxuint64", "maxuint64-1", "maxuint", "u2^63", "minint64", "uintptr-max"} {
 				idx++
 				if env.Mine(idx) {
 					grid.Run(&c08GridCase{Len: l, Index: ix, Rep: rep})
@@ -487,6 +492,7 @@ func TestC08(t *testing.T) {
 		{"im[1.9]", ""}, {"im[f19]", ""}, {`im["1"]`, ""}, {"im[1]", "one"}, {"im[i8v]", "one"}, {"im[u64v]", "one"}, {"im[i65]", "sixtyfive"}, {"im[2]", ""},
 		{"u8[257]", ""}, {"u8[u257]", ""}, {"u8[-255]", ""}, {"u8[neg]", ""}, {"u8[1]", "one"}, {"u8[i8v]", "one"}, {"i8[255]", ""}, {"i8[-1]", "m1"},
 		{"fm[1.5]", "x"}, {"fm[1]", ""}, {`fm["1.5"]`, ""}, {"am[65]", ""}, {"am[1]", "one"}, {`am["A"]`, "letter"}, {"am.A", "letter"}, {"am[i8v]", "one"},
+		{"im.size", "2"}, {"u8.size", "1"}, {"i8.size", "1"}, {"fm.size", "1"}, {"am.size", "2"}, {"sm.size", "3"}, {"ss.size", "1"},
 		{"ms.size", ""}, {"pm.size", ""}, {`ms["size"]`, ""}, {"ms.b", "1"}, {"pm.b", "1"},
 		{"sm contains 65", "false"}, {`sm contains "A"`, "true"}, {"im contains 1.9", "false"}, {"im contains 1", "true"}, {"im contains i8v", "true"}, {"u8 contains 257", "false"}, {"u8 contains 1", "true"}, {`im contains "1"`, "false"}, {"am contains i8v", "true"}, {"am contains 65", "false"},
 	} {
